@@ -598,7 +598,7 @@ def rewrite_inputs(cx, st):
     for a in SUBP:
         for b in SUBP:
             out.append(a + b)
-    for _ in range(cx.n(1500, 20000)):
+    for _ in range(cx.n(1500, 8000)):
         out.append(b"".join(rng.choice(SUBP) for _ in range(rng.randrange(2, 6))))
     # negated block escapes (F185: `\P{IsX}` at depth 0 is rewritten to `[^\p{IsX}]` first when the source has the pass)
     NEGP = [b"\\P{IsGreek}", b"\\P{IsSpecials}", b"\\P{IsFoo}", b"\\P{Is", b"\\P{IsGreek", b"\\P{L}", b"\\\\P{IsGreek}", b"[", b"]", b"\\[", b"\\]", b"}", b"{", b"\\", b"a", b"\\p{IsGreek}",
@@ -608,7 +608,7 @@ def rewrite_inputs(cx, st):
         for b in NEGP:
             out.append(a + b)
             out.append(a + b + b"\\P{IsBasicLatin}")
-    for _ in range(cx.n(1500, 20000)):
+    for _ in range(cx.n(1500, 8000)):
         out.append(b"".join(rng.choice(NEGP) for _ in range(rng.randrange(2, 6))))
     out.append(b"[" * 70 + b"a-[b" + b"]" * 72)
     out.append(b"[a" + b"-[a" * 70 + b"]" * 71)
@@ -920,7 +920,7 @@ def render_cases(cx, st):
     rng = cx.sub_rng("render")
     pats = ["a{0,65535}", "[a-c-[b]]", "[^a-[b-[c]]]", "(|a)", "a||b", "()", "[\\{]", "[{]", "\\{Is", "\\\\p\\{Is", "^$", "[$^]", "[a^]", "[\\^a]", "[-a]", "[a-]", "a{3}{2}" ]
     seen = set(pats)
-    for _ in range(cx.n(220, 6000)):
+    for _ in range(cx.n(220, 2500)):
         p = gen_re(rng, 2)
         if p not in seen and "\x00" not in p:
             seen.add(p); pats.append(p)
